@@ -33,12 +33,13 @@ CLAUSES = {
     22: 'C19_dispatch: registration order, callbacks marked last after all others',
     23: 'C19_dispatch: sender and arguments passed through unchanged',
     24: 'C19_dispatch: results returned in call order (single: first result after one call)',
-    25: 'C19_dispatch: nothing is called while silenced',
+    25: 'C19_dispatch_all: nothing is called while silenced (set_silent inside silent() blocks included)',
     26: 'C19_progress: completion announced exactly once per crossing',
     27: 'C19_progress_values: progress events / value / maximum follow the history',
 }
 TRUSTED = ['CPython function/bound-method identity and ==, contextlib.contextmanager (LIFO exit of with-blocks)']
-ASSUMES = ['histories do not call set_silent inside a silent() block (judged by model equality only there)',
+ASSUMES = ['silent() blocks are left normally and in LIFO order (a `with` statement); set_silent inside a block is '
+           'covered (C19_dispatch_all)',
            'callbacks do not raise and do not re-enter the emitter; unconnect items are never None',
            'reporter histories are not run while the emitter is silenced; values and maxima are integers']
 TIMEOUT = {'quick': 10, 'thorough': 20}
@@ -205,8 +206,12 @@ def corpus():
                      E(0, 0, (0,), (), False)]))                         # argument pass-through, single=False
     cs.append(_hist([C(F0), SS(True), e, SS(False), e, EN, e, EX, e]))   # silencing
     cs.append(_hist([C(F0), EN, C(F1, 0), U(F0), EX, e]))                # registry changes while silenced
-    cs.append(_hist([C(F0), EN, SS(False), e, EX, e]))                   # outside the reading: model equality only
+    cs.append(_hist([C(F0), EN, SS(False), e, EX, e]))                   # set_silent inside a block (stage 3: judged)
     cs.append(_hist([C(F0), EN, SS(True), EX, e, SS(False), e]))
+    cs.append(_hist([C(F0), SS(True), EN, SS(False), e, EX, e, SS(False), e]))     # exit restores set_silent(True)
+    cs.append(_hist([C(F0), EN, SS(False), EN, e, SS(False), e, EX, e, EX, e]))    # nested, set_silent in both
+    cs.append(_hist([C(F0), EN, EN, SS(False), EX, e, SS(False), e, EX, e]))       # inner block restores True
+    cs.append(_hist([C(F0), SS(True), EN, EX, e, EN, SS(False), EX, e, SS(False), EN, SS(True), EX, e]))
     cs.append(_prog([['v', 0], ['v', 0], ['inc']]))                      # max 0: first update completes
     cs.append(_prog([['m', 2], ['inc'], ['inc'], ['inc'], ['v', 1], ['inc']]))
     cs.append(_prog([['m', 2], ['sc'], ['sc'], ['m', 3], ['sc'], ['m', 1], ['sc'], ['m', 1], ['inc']]))
